@@ -672,6 +672,16 @@ func (P *Program) registerStd() {
 		fr.in.path.noteAssumption("addrmgr.GroupKey is an uninterpreted function of the address object")
 		return fmt.Sprintf("group:%p", args[0])
 	})
+	P.reg("crypto/rand.Int", func(fr *frame, args []value) value {
+		in := fr.in
+		max := in.bigOf(*args[1].(*value))
+		t := in.C.Fresh("rand", smt.Int)
+		in.assumeSilently(in.C.ILe(in.C.IntConstI(0), t))
+		in.assumeSilently(in.C.ILt(t, max))
+		in.path.noteAssumption("crypto/rand.Int returns an arbitrary value in [0, max)")
+		var cell value = bigVal{t}
+		return tuple{&cell, iface{}}
+	})
 	// ---- misc
 	P.reg("os.Exit", func(fr *frame, args []value) value { panic(targetPanic{msg: "os.Exit called"}) })
 }
